@@ -131,3 +131,5 @@ Print Assumptions C02_fragment_expression_in_context.
 Print Assumptions C02_parse_fuel_independent.
 Print Assumptions C02_refuted.
 Print Assumptions C02_refuted_plus_in_plus.
+Print Assumptions C02_refuted_statement_starts_with_prefix_operator.
+Print Assumptions C02_refuted_bare_return_followed_by_statement.
